@@ -53,12 +53,16 @@ def tree_key(extra=None):
 
 def run(cmd, cwd=None, env=None, timeout=None, check=True, capture=True):
     e = dict(os.environ)
+    e.setdefault("PFV_JOB_TIMEOUT_S", "90" if tier() == "quick" else "900")
+    e.setdefault("PFV_WATCHDOG_S", "120" if tier() == "quick" else "1200")
     if env:
         e.update(env)
     t0 = time.time()
     p = subprocess.run(cmd, cwd=cwd, env=e, timeout=timeout,
                        stdout=subprocess.PIPE if capture else None,
                        stderr=subprocess.STDOUT if capture else None, text=True)
+    if p.returncode == 4 and '"hang"' in (p.stdout or ""):
+        raise ToolError("harness call into the code under test did not return (watchdog): %s" % (p.stdout or "").strip().split("\n")[-1][:1500])
     if check and p.returncode != 0:
         raise ToolError("command failed (%d): %s\n%s" % (p.returncode, " ".join(cmd), (p.stdout or "")[-4000:]))
     return p
